@@ -9,5 +9,40 @@ SPECS = {
  'u32clz': {'src': src('u32clz'), 'pre': ['is_u32(s0[0])', 'adv.len() >= 1'],
     'post': ['r[0] == adv[0]', 'clz_is(%s, %s)' % (A, H), 'rest_ok(s0, r, 1, 1)'],
     'fails': '!clz_is(%s, %s)' % (A, H),
+    'chain_in_body': True,
+    'hints': ['lemma_clz_all(s0[0], adv[0]);',
+              'let e = fadd(32, fneg(adv[0].val())); let p = p2(e); let mask0 = fadd(0x1_0000_0000, fneg(p)); let bit = p / 2; let m = fadd(mask0, bit);',
+              'assert(s6[0].val() == e);',
+              'if ok7 { assert(s7[0].val() == p); assert(s11[0].val() == mask0); assert(s15[0].val() == bit); assert(s18[0].val() == m); assert(s19[0] == s0[0] && s19[1].val() == m && s19[2].val() == bit); }']},
+ # clo: leading ones of a = leading zeros of the complement
+ 'u32clo': {'src': src('u32clo'), 'pre': ['is_u32(s0[0])', 'adv.len() >= 1'],
+    'post': ['r[0] == adv[0]', 'clz_is(0xFFFF_FFFF - %s, %s)' % (A, H), 'rest_ok(s0, r, 1, 1)'],
+    'fails': '!clz_is(0xFFFF_FFFF - %s, %s)' % (A, H),
     'hints': ['lemma_clz_all(s0[0], adv[0]);']},
+ 'u32ctz': {'src': src('u32ctz'), 'pre': ['is_u32(s0[0])', 'adv.len() >= 1'],
+    'post': ['r[0] == adv[0]', 'ctz_is(%s, %s)' % (A, H), 'rest_ok(s0, r, 1, 1)'],
+    'fails': '!ctz_is(%s, %s)' % (A, H),
+    'hints': ['lemma_ctz_all(s0[0], adv[0]);']},
+ 'u32cto': {'src': src('u32cto'), 'pre': ['is_u32(s0[0])', 'adv.len() >= 1'],
+    'post': ['r[0] == adv[0]', 'ctz_is(0xFFFF_FFFF - %s, %s)' % (A, H), 'rest_ok(s0, r, 1, 1)'],
+    'fails': '!ctz_is(0xFFFF_FFFF - %s, %s)' % (A, H),
+    'hints': ['lemma_ctz_all(s0[0], adv[0]);']},
+ # ilog2 (docs: b = floor(log2(a)), fails if a = 0): for every hint, completes exactly when 2^hint <= a < 2^(hint+1)
+ 'ilog2': {'src': src('ilog2'), 'pre': ['adv.len() >= 1'],
+    'post': ['r[0] == adv[0]', 'ilog2_is(%s, %s)' % (A, H), 'rest_ok(s0, r, 1, 1)'],
+    'fails': '!ilog2_is(%s, %s)' % (A, H),
+    'chain_in_body': True,
+    'hints': ['lemma_ilog2_all(s0[0], adv[0]);',
+              'let h = adv[0].val(); let p = p2(h); let nh = s0[0].val() / 0x1_0000_0000; let nl = s0[0].val() % 0x1_0000_0000; let ph = p / 0x1_0000_0000; let pl = p % 0x1_0000_0000;',
+              'let d = if pl == 0 { 1int } else { 0int }; let phalf = if d == 1 { ph } else { pl }; let nhalf = if d == 1 { nh } else { nl };',
+              'if ok3 { assert(s3[0].val() == p); assert(s7[0].val() == ph && s7[1].val() == pl && s7[2].val() == nh && s7[3].val() == nl);',
+              '  assert(s9[0].val() == d); assert(s13[0].val() == phalf); assert(s14[0].val() == d && s14[1].val() == nh && s14[2].val() == nl && s14[3].val() == phalf);',
+              '  assert(s18[0].val() == fmul(nh, 1 - d)); assert(fmul(nh, 1 - d) == (1 - d) * nh) by (nonlinear_arith) requires fmul(1 - d, nh) == (1 - d) * nh, fmul(nh, 1 - d) == (nh * (1 - d)) % P(), fmul(1 - d, nh) == ((1 - d) * nh) % P();',
+              '  if ok20 { assert(s22[0].val() == nhalf && s22[1].val() == phalf); assert(s25[0].val() == ((phalf as u64) & (nhalf as u64)) as int);',
+              '    if ok28 { assert(s33[0].val() == fmul(phalf, 2)); assert(fmul(phalf, 2) == 2 * phalf); assert(s37[0].val() == 2 * phalf - 1); assert(s37[1].val() == nhalf); } } }']},
+ # ext2inv: [a1, a0, ...] -> [b1, b0, ...]; whatever (b0, b1) the host supplies, the run completes exactly when
+ # a * b = 1 in F_p[x]/(x^2 - x + 2), i.e. b is THE inverse of a (field: inverses are unique)
+ 'ext2inv': {'src': src('ext2inv'), 'pre': ['adv.len() >= 2'],
+    'post': ['r[0] == adv[1] && r[1] == adv[0]', 'rest_ok(s0, r, 2, 2)'],
+    'fails': '!(ext2_c0(adv[0].val(), adv[1].val(), s0[1].val(), s0[0].val()) == 1 && ext2_c1(adv[0].val(), adv[1].val(), s0[1].val(), s0[0].val()) == 0)'},
 }
